@@ -12,6 +12,7 @@ RULE = ("expand/combine: every list of <=3 sample counts in 1..M x every maximum
         "lists over {1,5,9}; scale_and_discretize: every weight list of length <=4 over {1,2,3,5,0.5} x totals 0..16; representing "
         "distributions: every distribution on <=2 bits with integer weights 0..W x N in 1..9 x EVERY answer of the scripted np.random.choice "
         "within the deviation bound. non-trivial = input actually needs splitting / a remainder / a random correction; distinct = canonical input")
+RULE += ' Round 5: sample counts as numpy integers of 8-64 bits at the top of their range, tuples, large Python ints.'
 ASSUMPTIONS = ["np.random.choice is the only randomness used (other entry points are trapped)", "the scripted choice enforces numpy's own argument checks (p >= 0, sum p = 1 within 1e-8)"]
 BOUNDS = {"quick": {"counts": "1..24", "max": "1..25", "weights": "0..5", "N": "1..12 (two-level family on 3 bits: 7 values, <=2 deviations)", "deviations": "all answers on <=2 bits"},
           "thorough": {"counts": "1..36", "max": "1..37", "weights": "0..5 on <=2 bits, 0..2 on 3 bits (all 6560 distributions)", "N": "1..16 (two-level family: 1..16, <=3 deviations)", "deviations": "all answers"}}
